@@ -52,6 +52,8 @@ def spec_st(draw, max_n=7, min_workers=1):
         subcycles=subcycles, zeroswap=draw(st.sampled_from([None, None, 1.0, 0.0])),
         # reporting options: what is printed / logged every `screen` steps, and the worker-pattern file
         screen=draw(st.sampled_from([0, 0, 1, 3])), pattern=draw(st.sampled_from([False, False, True])),
+        # QuanTIS zero swaps ([0-] on its own engine section); not together with lambda_-1 (the configuration check forbids it)
+        quantis=(lm1 is None and ens_engs is None and draw(st.sampled_from([False, False, False, True]))),
     )
 
 
